@@ -53,6 +53,8 @@ CallOk(e) ==
            /\ sh[1] /\ sh[3] = want /\ sh[2] = Default /\ run[1].st = "Ground"
            /\ [i \in 1..Len(kept) |-> kept[i][1]] = want
            /\ ((e.fg = 16 /\ e.bg = 16) => acc = want)
-     ELSE kind \in {"eI", "eW", "eO", "eZ"} /\
-          (\E k \in 1..Len(e.inner) : e.inner[k][2] = kind \/ (kind = "eZ" /\ e.inner[k][2] = "ok" /\ e.inner[k][3] = 0))
+     ELSE /\ kind \in {"eI", "eW", "eO", "eZ"}
+          /\ (\E k \in 1..Len(e.inner) : e.inner[k][2] = kind \/ (kind = "eZ" /\ e.inner[k][2] = "ok" /\ e.inner[k][3] = 0))
+          \* Interrupted surfaces only from the DATA write (a single `write`); on a code it is retried, not returned
+          /\ (kind = "eI" => LET last == e.inner[Len(e.inner)] IN last[2] = "eI" /\ last[1] = e.data)
 =============================================================================
